@@ -17,8 +17,8 @@ Oracles (from the property statement and documentation/json_and_dict_doc.rst):
 
 Violation keys:
   C12:<kind>:changed:<field>                     a field of the innermost object of that kind differs
-  C12:<kind>:dict-not-fixpoint:<path>            second serialisation differs from the first
-  C12:<kind>:file-not-fixpoint:<path>
+  C12:<kind>:not-fixpoint:<path>                 second serialisation (dictionary or file) differs from the first;
+                                                 <kind> = innermost dictionary, <path> = position inside it
   C12:<function>:not-json-serialisable:<type>    json.dumps fails on a to_dict result
   C12:<function>:unexpected-exception:<Type>-<message slug>   (<function> = innermost library function)
   C12:<reader>:alias:<key>=<alias>:<rejected|differs>
@@ -301,8 +301,26 @@ def _same(a, b, path=""):
     return path
 
 
-def _strip_idx(path):
-    return re.sub(r"\[\d+\]", "[]", path).lstrip(".")
+_SEG_KIND = {"script": "rdscript", "system": "rdsystem", "network": "rdnetwork", "space": "rdspace",
+             "species[]": "species", "reactions[]": "reaction", "nodes[]": "rdgraphspacenode",
+             "edges[]": "rdgraphspaceedge"}
+_TOP_KIND = {"rdgridspace": "rdspace", "rdgraphspace": "rdspace"}
+
+
+def _fix_key(kind, path):
+    """(innermost kind, remaining path) of a difference found at `path` of the dictionary of a `kind`"""
+    segs = re.sub(r"\[\d+\]", "[]", path).lstrip(".").split(".")
+    kind = _TOP_KIND.get(kind, kind)
+    rest = []
+    for sgm in segs:
+        base = sgm.split("<")[0]
+        # "nodes" of an edge dictionary is the pair of node indices, not a list of node dictionaries
+        if base in _SEG_KIND and not (kind == "rdgraphspaceedge" and base == "nodes[]") \
+                and not (kind == "rdtrajectory" and base == "space") and "<" not in sgm:
+            kind, rest = _SEG_KIND[base], []
+        else:
+            rest.append(sgm)
+    return "%s:%s:not-fixpoint:%s" % (PID, kind, ".".join(rest) or "<value>")
 
 
 def _norm(cx, toname, d, out, ctx):
@@ -369,7 +387,7 @@ def rt_dict(cx, kind, obj, route, out):
         cx.evals += 1
         p = _same(n1, n2)
         if p is not None:
-            out.append(("%s:%s:dict-not-fixpoint:%s" % (PID, kind, _strip_idx(p)),
+            out.append((_fix_key(kind, p),
                         "%sto_dict(from_dict(to_dict(x))) differs from to_dict(x) at %s" % (ctx, p)))
 
 
@@ -422,7 +440,7 @@ def rt_file(cx, kind, obj, route, tmp, out, separate_data=True):
     cx.evals += 1
     p = _same(j1, j2)
     if p is not None:
-        out.append(("%s:%s:file-not-fixpoint:%s" % (PID, kind, _strip_idx(p)),
+        out.append((_fix_key(kind, p),
                     "%ssave(load(save(x))) differs from save(x) at %s" % (ctx, p)))
 
 
@@ -451,7 +469,19 @@ def _strip_inherited(d, parent_units, children):
     return n
 
 
+class NoLayout(Exception):
+    """the to_dict output does not have the documented shape, so no multi-file layout can be derived from it
+    (the dict / json routes report what is wrong with it)"""
+
+
 def write_system_layout(cx, d, root, ext, strip):
+    try:
+        return _write_system_layout(cx, d, root, ext, strip)
+    except (KeyError, TypeError, AttributeError, ValueError, IndexError) as e:
+        raise NoLayout("%s: %s" % (type(e).__name__, e))
+
+
+def _write_system_layout(cx, d, root, ext, strip):
     """system.json -> net/network.json, sp/space.json (-> env file), state.npy, chemostats file."""
     sysdir = os.path.join(root, "sys")
     os.makedirs(os.path.join(sysdir, "net"))
@@ -500,6 +530,13 @@ def _load_two_ways(cx, kind, root, relfile, how):
 
 
 def rt_multi(cx, kind, obj, route, tmp, out):
+    try:
+        return _rt_multi(cx, kind, obj, route, tmp, out)
+    except (KeyError, TypeError, AttributeError, IndexError) as e:
+        raise NoLayout("%s: %s" % (type(e).__name__, e))
+
+
+def _rt_multi(cx, kind, obj, route, tmp, out):
     """route = 'multi:<npy|txt>:<abs|rel>:<keep|strip>[:text]' ; kind in rdsystem / rdscript / rdtrajectory."""
     _, ext, how, strip = route.split(":")[:4]
     t_ext = route.endswith(":text")
@@ -551,6 +588,13 @@ def rt_multi(cx, kind, obj, route, tmp, out):
 
 
 def rt_space_external(cx, obj, route, tmp, out):
+    try:
+        return _rt_space_external(cx, obj, route, tmp, out)
+    except (KeyError, TypeError, AttributeError, IndexError) as e:
+        raise NoLayout("%s: %s" % (type(e).__name__, e))
+
+
+def _rt_space_external(cx, obj, route, tmp, out):
     """a space JSON whose cell_env is an external .npy / .txt file: 'ext:<npy|txt|txtc>:<abs|rel>'"""
     _, ext, how = route.split(":")
     ctx = "[rdspace %s] " % route
@@ -929,6 +973,8 @@ def _check(case, tmp=None):
                     raise ValueError(route)
             except LibFail as lf:
                 out.append((lf.key(), lf.what("[%s %s] " % (kind, route)) + "\n" + lf.tail))
+            except NoLayout:
+                cx.count("multi_file_layout_not_derivable_from_to_dict_output")
             finally:
                 if needs_tmp:
                     shutil.rmtree(work, ignore_errors=True)
@@ -1357,7 +1403,10 @@ def _work(job):
     nt = 0
     try:
         for case in itertools.islice(gen(), lo, hi):
-            res, cx = _check(case, tmp)
+            try:
+                res, cx = _check(case, tmp)
+            except Exception as e:  # noqa: BLE001 - a defect of the checker itself, attributed to the case
+                res, cx = [("%s:checker:case-exception" % PID, "%s: %s\n%s" % (type(e).__name__, e, traceback.format_exc()[-1500:]))], Cx()
             acc.add(states=1, transitions=cx.ops, traces=1, evaluations=cx.evals)
             for k, v in cx.counts.items():
                 acc.count(k, v)
